@@ -484,6 +484,12 @@ def check(pid, P, tier, seed, work, replay, t0):
             agg = stats_all.setdefault(stream, {"cases": 0, "ops": 0, "op_mix": {}, "branches": {}, "panics": {}, "hangs": 0, "distinct_nontrivial": 0, "max_case_len": 0})
             for k in ("cases", "ops", "hangs", "distinct_nontrivial"):
                 agg[k] += st.get(k, 0)
+            # distinct non-trivial cases across shards: union of the hashes when every shard reported them
+            hs = st.get("nontrivial_hashes")
+            if hs is None and st.get("distinct_nontrivial", 0) > 0:
+                agg["_hash_union"] = None
+            elif agg.get("_hash_union", set()) is not None:
+                agg.setdefault("_hash_union", set()).update(hs or [])
             agg["max_case_len"] = max(agg["max_case_len"], st.get("max_case_len", 0))
             for k in ("op_mix", "branches", "panics"):
                 for kk, vv in (st.get(k) or {}).items():
@@ -533,6 +539,10 @@ def check(pid, P, tier, seed, work, replay, t0):
             for x in its:
                 fid = explained_by(stream, x[5])
                 explained_by_finding[fid] = explained_by_finding.get(fid, 0) + 1
+    for st_ in stats_all.values():
+        u = st_.pop("_hash_union", None)
+        if u is not None:
+            st_["distinct_nontrivial"] = len(u)
     evaluations = sum(s["cases"] for s in stats_all.values())
     nontrivial = sum(s["distinct_nontrivial"] for s in stats_all.values())
     if race_reports:
